@@ -9,6 +9,7 @@ encoder with all freedoms (Spec/BocEncode.lean).  `none` = the library raises.
 import TonVerif.Proofs.BocParse
 import TonVerif.Proofs.SrcBocHeader
 import TonVerif.Proofs.SrcBocCell
+import TonVerif.Proofs.SrcBocCells
 import TonVerif.Properties.C01
 
 namespace TonVerif.Properties.C05
@@ -235,6 +236,35 @@ example : header idxBag = some idxBagOut ∧ deserializeBocHeader idxBag = some 
 open TonVerif.Generated.BocHeader in
 /-- and a rejected one (one byte missing): both raise. -/
 example : header idxBag.dropLast = none ∧ deserializeBocHeader idxBag.dropLast = none := by
+  constructor <;> decide +kernel
+
+/-! ## the whole cell record reader of the working tree (regenerated from the source on every run) -/
+
+open TonVerif.Generated.BocCells in
+/-- SOURCE TIE for the cell record reader: `Generated.BocCells.deserialize_cell` is regenerated on every run from the text of
+the WHOLE `Boc.deserialize_cell` (pytoniq_core/boc/deserialize.py; translator harness/translate/pyloops.py: `bitarray()`,
+`frombytes`, the completion-tag loop `for j in range(-1, -8, -1)` with `break`, `bits[:end]` with `end` = `None` or a negative
+index, `TvmBitarray(1023, ..)`, `ba2int(bits[:8], signed=True)`, the reference-index loop with `append`, the returned
+`(dict, consumed)`).  For EVERY byte list and EVERY index width it raises exactly when the hand model's `deserializeCell`
+(about which all theorems above are proved) returns `none`, and otherwise returns the same data bits, reference indices,
+cell type (`-1` or the signed first data byte), `'result': None`, and the same number of consumed bytes. -/
+theorem c05_src_deserialize_cell {R : Type} (data : Bytes) (refSize : Nat) :
+    deserialize_cell (R := R) data refSize =
+      (deserializeCell data refSize).map fun p => (CellOut.ofModel p.1, p.2) :=
+  TonVerif.Proofs.SrcBocCells.src_deserialize_cell_eq data refSize
+
+open TonVerif.Generated.BocCells in
+/-- non-vacuity of `c05_src_deserialize_cell`: an exotic record (type byte 0xFE = -2) with 3 data bytes whose completion tag
+is the fourth-last bit, and two references of width 2; both functions return the 20 data bits, `[5, 258]`, `-2`, 9 bytes. -/
+example : deserialize_cell (R := Unit) [0x0a, 0x05, 0xfe, 0x12, 0x38, 0, 5, 1, 2, 0xff] 2 =
+      some ({ bits := bytesToBits [0xfe, 0x12] ++ [false, false, true, true], refs := [5, 258], type := -2, result := none }, 9) ∧
+    deserializeCell [0x0a, 0x05, 0xfe, 0x12, 0x38, 0, 5, 1, 2, 0xff] 2 =
+      some ({ bits := bytesToBits [0xfe, 0x12] ++ [false, false, true, true], refs := [5, 258], type := -2 }, 9) := by
+  constructor <;> decide +kernel
+
+open TonVerif.Generated.BocCells in
+/-- and a rejected one (an exotic record with fewer than eight data bits): both raise. -/
+example : deserialize_cell (R := Unit) [0x08, 0x01, 0x90] 1 = none ∧ deserializeCell [0x08, 0x01, 0x90] 1 = none := by
   constructor <;> decide +kernel
 
 end TonVerif.Properties.C05
